@@ -1,30 +1,7 @@
 (* Wal/ProofsLog.v — ReadAll's entry placement: last write per index wins, what follows is truncated. *)
-From ZV Require Import Common.Bytes Wal.Consts Wal.Crc Wal.Proto Wal.Model Wal.ProofsProto.
+From ZV Require Import Common.Bytes Wal.Consts Wal.Crc Wal.Proto Wal.Model Wal.Spec Wal.ProofsProto.
 From Coq Require Import ZifyN ZifyNat ZifyBool Lia.
 Open Scope N_scope.
-
-(* ReadAll's statement  ents = append(ents[:e.Index-start-1], e)  with its range check *)
-Definition place (start : N) (ents : list entry) (e : entry) : option (list entry) :=
-  if start <? e_index e then
-    let up := e_index e - start - 1 in
-    if nlen ents <? up then None else Some (firstn (N.to_nat up) ents ++ [e])
-  else Some ents.
-
-Fixpoint place_all (start : N) (ents : list entry) (es : list entry) : option (list entry) :=
-  match es with
-  | [] => Some ents
-  | e :: r => match place start ents e with
-              | None => None
-              | Some ents' => place_all start ents' r
-              end
-  end.
-
-(* the entries that survive: those no later write has overwritten or truncated *)
-Fixpoint visible (es : list entry) : list entry :=
-  match es with
-  | [] => []
-  | e :: r => if forallb (fun e' => e_index e <? e_index e') r then e :: visible r else visible r
-  end.
 
 (* contiguous indices start+1, start+2, ... *)
 Fixpoint contiguous (start : N) (ents : list entry) : Prop :=
